@@ -341,6 +341,13 @@ def removeNodeGraph (nid : Nid) : M Topo Unit := do
   deleteNode nid
   forEach nss removeNs
 
+/-- the `try: … except Exception: remove the component with everything under it; raise` of `add_component_sliver`
+(absent from the code when `Rules.componentRollback` is false) -/
+def compGuard (comp : Nid) (body : M Topo Unit) : M Topo Unit :=
+  if Rules.componentRollback then
+    tryCatch body (fun _ => true) (fun e => do removeCompGraph comp; raise e)
+  else body
+
 /-- `__service_guardrails` -/
 def guardrails (stype : String) (i : IfArg) : M Topo Unit :=
   if stype == "L2PTP" then
@@ -509,14 +516,15 @@ def compNew (fl : Flavour) (c : Nat) (parent : Nid) (a : CompArgs) : M Topo Nid 
   let kw ← ofExcept (validateProps a.props)
   -- add_component_sliver
   addGNode ⟨.component, id, a.name, e.ctype, dictUpdate [("Model", e.model), ("Details", e.details), ("StitchNode", "false")] kw⟩
-  addEdge parent .has id
-  if e.hasIfaces then do
-    addGNode ⟨.networkService, nsId, p.name ++ "-" ++ a.name ++ e.nsSuffix, e.nsType, [("StitchNode", "false"), ("Layer", "L2")]⟩
-    addEdge id .has nsId
-    forEach (e.ifaces.zip ifIds) (fun (ci, iid) => do
-      addGNode ⟨.connectionPoint, iid, a.name ++ "-" ++ ci.port, ci.itype, ci.props⟩
-      addEdge nsId .connects iid)
-  else pure ()
+  compGuard id (do
+    addEdge parent .has id
+    if e.hasIfaces then do
+      addGNode ⟨.networkService, nsId, p.name ++ "-" ++ a.name ++ e.nsSuffix, e.nsType, [("StitchNode", "false"), ("Layer", "L2")]⟩
+      addEdge id .has nsId
+      forEach (e.ifaces.zip ifIds) (fun (ci, iid) => do
+        addGNode ⟨.connectionPoint, iid, a.name ++ "-" ++ ci.port, ci.itype, ci.props⟩
+        addEdge nsId .connects iid)
+    else pure ())
   pure id
 
 /-- `Node.add_component` -/
@@ -910,14 +918,15 @@ def compNewMT (fl : Flavour) (c : Nat) (parent : Nid) (a : CompArgs) (mt : Strin
   let (nsId, _) := if e.hasIfaces then pick a.nsNid c2 else (id, c2)
   let kw ← ofExcept (validateProps a.props)
   addGNode ⟨.component, id, a.name, e.ctype, dictUpdate [("Model", e.model), ("Details", e.details), ("StitchNode", "false")] kw⟩
-  addEdge parent .has id
-  if e.hasIfaces then do
-    addGNode ⟨.networkService, nsId, p.name ++ "-" ++ a.name ++ e.nsSuffix, e.nsType, [("StitchNode", "false"), ("Layer", "L2")]⟩
-    addEdge id .has nsId
-    forEach (e.ifaces.zip ifIds) (fun (ci, iid) => do
-      addGNode ⟨.connectionPoint, iid, a.name ++ "-" ++ ci.port, ci.itype, ci.props⟩
-      addEdge nsId .connects iid)
-  else pure ()
+  compGuard id (do
+    addEdge parent .has id
+    if e.hasIfaces then do
+      addGNode ⟨.networkService, nsId, p.name ++ "-" ++ a.name ++ e.nsSuffix, e.nsType, [("StitchNode", "false"), ("Layer", "L2")]⟩
+      addEdge id .has nsId
+      forEach (e.ifaces.zip ifIds) (fun (ci, iid) => do
+        addGNode ⟨.connectionPoint, iid, a.name ++ "-" ++ ci.port, ci.itype, ci.props⟩
+        addEdge nsId .connects iid)
+    else pure ())
   pure id
 
 /-- `Node.add_component(model_type=…)` -/
